@@ -610,7 +610,8 @@ def preprocess_observation(
     elif isinstance(observation_space, spaces.Discrete):
         # One hot encoding of discrete observation
         observation = F.one_hot(
-            observation.long(), num_classes=int(observation_space.n)
+            observation.long() - int(observation_space.start),
+            num_classes=int(observation_space.n),
         ).float()
         if observation_space.n > 1:
             observation = (
@@ -630,7 +631,8 @@ def preprocess_observation(
         observation = torch.cat(
             [
                 F.one_hot(
-                    obs_.long(), num_classes=int(observation_space.nvec[idx])
+                    obs_.long() - int(np.asarray(observation_space.start).reshape(-1)[idx]),
+                    num_classes=int(observation_space.nvec[idx]),
                 ).float()
                 for idx, obs_ in enumerate(torch.split(observation.long(), 1, dim=1))
             ],
